@@ -224,7 +224,7 @@ def run_shape(ctx):
             jt = br[0][1]
             good = src is not None and Call("enumerate", Call("index_mut", OUT, Agg("RangeTo", SIZE)))(src) and adapters_in(src) == [] and \
                 d(jt[2][0]) and Field(item, name="0")(jt[2][1])
-            sel = [e for e in g.edges if e.cond[0] == "rel" and e.cond[1] == "Lt" and e.cond[2] == jt and Len(INP)(e.cond[3])]
+            sel = find_rel_edges(g, "Lt", lambda x: x == jt, Len(INP))
             good = good and len(sel) == 1
             # the value written through the iterator item: inp[j] on the Lt edge, zero otherwise
             wr = [(bi, si, s) for bi, si, s in b.iter_stmts() if s.kind == "assign" and s.place and s.place[1] and s.place[1][-1] == "*" and bi in lp[1]]
@@ -248,7 +248,7 @@ def run_shape(ctx):
             loops = [l for l in b.loops().items() if roots[0][0] in l[1]]
             lvl = max(loops, key=lambda l: len(l[1]))
             litem, lsrc = item_of(lvl[1], b, g)
-            good = lsrc is not None and Agg("Range", Lit(1), Bin("Add", d, Lit(1), commutative=True))(lsrc)
+            good = lsrc is not None and RangeP(Lit(1), d)(lsrc)
             detail = "level loop is not 1..d+1: %s" % (fmt(lsrc)[:120] if lsrc else None)
             if good:
                 r_l = [c for bi, c in roots if litem(c[2][0])]
@@ -499,8 +499,8 @@ def run_shape(ctx):
                 not Mentions(Index(Local(1), kitem))(val) and Mentions(Call("inv", AnyLocal()))(val) and \
                 Mentions(Un("Neg", Index(AnyLocal(), kitem)))(val)
             # the numerator/denominator loop reads polynomial[..k] only
-            ym = [c for bi, c in calls_named(ctx, f, "enumerate") if Mentions(Local(1))(c)]
-            good = good and len(ym) == 1 and Mentions(Call("index", Local(1), Agg("RangeTo", kitem)))(ym[0])
+            ym = [c for bi, c in calls_named(ctx, f, "index") if S(Local(1))(c[2][0])]
+            good = good and len(ym) >= 1 and all(Agg("RangeTo", kitem)(c[2][1]) for c in ym)
         req(ctx, rule, K + "tail-overwritten", good, "polynomial[k] = -w[k] * num / den for k in num_values..len, computed from polynomial[..k] only",
             "the extension does not overwrite polynomial[k] (k >= num_values) with a value computed from entries below k only: stores=%d compound=%s" % (len(st), muts), loc=f.loc)
     except Skip:
